@@ -47,6 +47,9 @@ pub enum Tamper {
     WrongNamespaceSecret(u8),
     /// claims author a, but the author signature is made with another author's secret
     WrongAuthorSecret(u8),
+    /// names a foreign namespace id, but both signatures are made over that content with the *receiving* replica's
+    /// namespace secret and the real author: verifies under the replica's key, yet is not an entry of the replica's namespace
+    ForeignIdOurSecret(u8),
     /// correctly signed, timestamp = now + 10 min + d (d in -1..=2)
     Future(i8),
     /// correctly signed, timestamp u64::MAX
@@ -79,6 +82,9 @@ pub struct Case {
     pub have_local: bool,
     pub with_fingerprint: bool,
     pub status: u8,
+    /// the receiving store also holds the other documents of the pool (imported, empty)
+    #[serde(default)]
+    pub others_imported: bool,
 }
 
 fn small() -> impl Strategy<Value = Small> {
@@ -102,6 +108,7 @@ fn tamper() -> impl Strategy<Value = Tamper> {
         1 => (1u8..6).prop_map(Tamper::ForeignNamespace),
         2 => (1u8..6).prop_map(Tamper::WrongNamespaceSecret),
         2 => (1u8..6).prop_map(Tamper::WrongAuthorSecret),
+        2 => (1u8..6).prop_map(Tamper::ForeignIdOurSecret),
         4 => (-1i8..=2).prop_map(Tamper::Future),
         1 => Just(Tamper::TsMax),
         4 => (0u8..4).prop_map(Tamper::Emptiness),
@@ -236,6 +243,11 @@ fn apply(base: &SignedEntry, t: &Tamper) -> Option<Fields> {
             }
             f.resign(namespace(0), author(other));
         }
+        Tamper::ForeignIdOurSecret(i) => {
+            let a = author(author_index(&base.author()).unwrap_or(0));
+            f.namespace = namespace(*i).id().to_bytes();
+            f.resign(namespace(0), a);
+        }
         Tamper::Future(d) => {
             f.ts = (NOW + FUTURE_SHIFT).wrapping_add(*d as i64 as u64);
             f.resign(namespace(0), author(author_index(&base.author()).unwrap_or(0)));
@@ -269,6 +281,7 @@ fn tamper_class(t: &Tamper) -> &'static str {
         Tamper::ForeignNamespace(_) => "tamper/valid-for-foreign-namespace",
         Tamper::WrongNamespaceSecret(_) => "tamper/wrong-namespace-secret",
         Tamper::WrongAuthorSecret(_) => "tamper/wrong-author-secret",
+        Tamper::ForeignIdOurSecret(_) => "tamper/foreign-namespace-id-signed-with-our-secret",
         Tamper::Future(_) => "tamper/future-boundary",
         Tamper::TsMax => "tamper/timestamp-max",
         Tamper::Emptiness(_) => "tamper/emptiness-combination",
@@ -309,6 +322,7 @@ impl Prop for C03 {
             have_local: n % 2 == 0,
             with_fingerprint: n % 5 == 0,
             status: (n % 3) as u8,
+            others_imported: n % 4 == 1,
         };
         let widths = [(Field::AuthorSig, 512usize), (Field::NamespaceSig, 512), (Field::Namespace, 256), (Field::Author, 256), (Field::Hash, 256), (Field::Timestamp, 64), (Field::Len, 64), (Field::Key, 16)];
         for (f, nbits) in widths {
@@ -325,6 +339,10 @@ impl Prop for C03 {
         for m in 0..4 {
             v.push(mk(Tamper::Emptiness(m), m as usize));
         }
+        for i in 1..6u8 {
+            v.push(mk(Tamper::ForeignIdOurSecret(i), i as usize));
+            v.push(mk(Tamper::ForeignNamespace(i), i as usize + 1));
+        }
         v
     }
 
@@ -338,9 +356,9 @@ impl Prop for C03 {
             1u8..=3,
             any::<bool>(),
             any::<bool>(),
-            0u8..3,
+            (0u8..3, any::<bool>()),
         )
-            .prop_map(|(base, tamper, pre, others, pos, parts, have_local, with_fingerprint, status)| Case {
+            .prop_map(|(base, tamper, pre, others, pos, parts, have_local, with_fingerprint, (status, others_imported))| Case {
                 base,
                 tamper,
                 pre,
@@ -350,6 +368,7 @@ impl Prop for C03 {
                 have_local,
                 with_fingerprint,
                 status,
+                others_imported,
             })
             .boxed()
     }
@@ -381,6 +400,26 @@ fn status_of(i: u8) -> ContentStatus {
     }
 }
 
+/// Entries, heads or content hashes under any namespace of the pool other than namespace 0.
+fn foreign_documents_hold_something(st: &mut Store) -> R<Option<String>> {
+    for i in 1..N_NAMESPACES as u8 {
+        let id = namespace(i).id();
+        let d = dump(st, id)?;
+        if !d.is_empty() {
+            return Ok(Some(format!("document {i} now holds {}", describe_all(&d))));
+        }
+        let bk = dump_by_key(st, id)?;
+        if !bk.is_empty() {
+            return Ok(Some(format!("document {i} now shows {} on the key-ordered path", describe_all(&bk))));
+        }
+        let h = heads(st, id)?;
+        if !h.is_empty() {
+            return Ok(Some(format!("document {i} now has {} author heads", h.len())));
+        }
+    }
+    Ok(None)
+}
+
 fn check(ctx: &mut Ctx, c: &Case, o: &mut Outcome) -> R<()> {
     let nssec = namespace(0).clone();
     let ns = nssec.id();
@@ -401,6 +440,12 @@ fn check(ctx: &mut Ctx, c: &Case, o: &mut Outcome) -> R<()> {
     // (a) single remote insert into a fresh replica
     let mut st = Store::memory();
     es(st.import_namespace(nssec.clone().into()))?;
+    if c.others_imported {
+        o.class("store-holds-the-other-documents");
+        for i in 1..N_NAMESPACES as u8 {
+            es(st.import_namespace(namespace(i).clone().into()))?;
+        }
+    }
     let res = ctx.rt.block_on(async {
         let mut r = es(st.open_replica(&ns))?;
         Ok::<_, String>(r.insert_remote_entry(offered.clone(), [8u8; 32], ContentStatus::Missing).await)
@@ -425,6 +470,10 @@ fn check(ctx: &mut Ctx, c: &Case, o: &mut Outcome) -> R<()> {
     }
     if let Err(e) = self_consistent(&mut st, ns) {
         o.fail("C03/direct-consistency", e);
+        return Ok(());
+    }
+    if let Some(e) = foreign_documents_hold_something(&mut st)? {
+        o.fail("C03/direct-entry-in-another-document", format!("after offering {:?}-tampered {} to the replica of namespace 0: {e}", c.tamper, describe(&offered)));
         return Ok(());
     }
 
@@ -461,6 +510,11 @@ fn check(ctx: &mut Ctx, c: &Case, o: &mut Outcome) -> R<()> {
     let h = act::spawn(Store::memory());
     let out: R<()> = ctx.rt.block_on(async {
         es(h.import_namespace(nssec.clone().into()).await)?;
+        if c.others_imported {
+            for i in 1..N_NAMESPACES as u8 {
+                es(h.import_namespace(namespace(i).clone().into()).await)?;
+            }
+        }
         let (tx, rx) = async_channel::bounded(256);
         es(h.open(ns, OpenOpts::default().sync().subscribe(tx)).await)?;
         for e in &pre {
@@ -533,6 +587,12 @@ fn check(ctx: &mut Ctx, c: &Case, o: &mut Outcome) -> R<()> {
         let _ = h.shutdown().await.map(|mut s| {
             if let Err(e) = self_consistent(&mut s, ns) {
                 o.fail("C03/message-consistency", e);
+            }
+            // nothing may have been filed under any other document of the store either
+            match foreign_documents_hold_something(&mut s) {
+                Ok(Some(e)) => o.fail("C03/message-entry-in-another-document", format!("message with {:?}-tampered {}: {e}", c.tamper, describe(&offered))),
+                Ok(None) => {}
+                Err(e) => o.fail("C03/harness-error", e),
             }
         });
         Ok(())
